@@ -212,6 +212,7 @@ const (
 	dmgSeqEmpty   // MsgSeqNum present with an empty value (re-framed correctly)
 	dmgNumHuge    // a numeric body field holding a 20-digit decimal number (not representable as int)
 	dmgSeqHuge    // MsgSeqNum holding a 20-digit decimal number
+	dmgDecoySeq   // wrong checksum, and a user-defined field whose tag ends in the MsgSeqNum tag (5034=d) placed before MsgSeqNum
 	nDamage
 )
 
@@ -267,6 +268,21 @@ func applyDamage(b []byte, kind int, numTag string) []byte {
 		zz.Assume(x <= '9')
 		zz.Assume(x != d[i-1])
 		d[i-1] = x
+	case dmgDecoySeq:
+		var mid []byte
+		for _, t := range tokens(middle(b)) {
+			if t.tag == "34" {
+				x := zz.Byte()
+				zz.Assume(zz.And(x >= '0', x <= '9'))
+				mid = append(mid, "5034="...)
+				mid = append(mid, x, 1)
+			}
+			mid = append(mid, t.tag...)
+			mid = append(mid, '=')
+			mid = append(mid, t.val...)
+			mid = append(mid, 1)
+		}
+		return applyDamage(reframe(mid), dmgChecksum, "")
 	case dmgSeqMissing, dmgSeqAlpha, dmgNumField, dmgNumEmpty, dmgSeqEmpty, dmgNumHuge, dmgSeqHuge:
 		var mid []byte
 		target := "34"
